@@ -102,7 +102,7 @@ def _summary(hard, corr, name):
         h.ensures("lower_le_pred_le_upper", z3.And(lower.t <= pred.t, pred.t <= upper.t), replay=rp)
         # called contests contribute no uncertainty (unless they are also stop-listed)
         for i, dd in enumerate(unc):
-            h.ensures(f"called_contests_contribute_no_uncertainty[{'losses' if i == 0 else 'gains'}]", z3.Implies(z3.And(*C.facts(), s["called"] != -1, z3.Not(s["stop"])), dd.summand == 0))
+            h.ensures(f"called_contests_contribute_no_uncertainty[{'losses' if i == 0 else 'gains'}]", z3.Implies(z3.And(*C.facts(), s["called"] != -1, z3.Not(s["stop"])), dd.summand == 0), replay=lambda ev: {"target": "verif_replays:called_contests_no_uncertainty_replay", "args": [bool(corr), bool(hard)], "check": "result['exc'] is None and result['ok']"})
         if hard:
             for i, dd in enumerate(unc):
                 # losses only among predicted winners, gains only among predicted losers, each at most the weight
